@@ -191,12 +191,7 @@ impl Harness {
         if let Some((size, by_growth, frame)) = rep.flagged {
             let frame_sig = frame.split('@').next().unwrap_or("?").to_string();
             self.violate(
-                &format!(
-                    "alloc|{}|{}|{}",
-                    entry,
-                    if by_growth { "growth" } else { "request" },
-                    frame_sig
-                ),
+                &format!("alloc|{}|{}", if by_growth { "growth" } else { "request" }, frame_sig),
                 format!(
                     "{} asked for {} bytes ({}) with {} bytes of input visible (bound {}), at {}",
                     entry,
